@@ -13,6 +13,10 @@ type ('a, 'b) sum =
 
 val fst : ('a1 * 'a2) -> 'a1
 
+val snd : ('a1 * 'a2) -> 'a2
+
+val length : 'a1 list -> nat
+
 val app : 'a1 list -> 'a1 list -> 'a1 list
 
 type comparison =
@@ -22,12 +26,16 @@ type comparison =
 
 val add : nat -> nat -> nat
 
+val mul : nat -> nat -> nat
+
 val sub : nat -> nat -> nat
 
 val max : nat -> nat -> nat
 
 module Nat :
  sig
+  val sub : nat -> nat -> nat
+
   val eqb : nat -> nat -> bool
 
   val leb : nat -> nat -> bool
@@ -37,7 +45,17 @@ module Nat :
   val compare : nat -> nat -> comparison
 
   val max : nat -> nat -> nat
+
+  val divmod : nat -> nat -> nat -> nat -> nat * nat
+
+  val div : nat -> nat -> nat
+
+  val modulo : nat -> nat -> nat
  end
+
+val tl : 'a1 list -> 'a1 list
+
+val rev : 'a1 list -> 'a1 list
 
 val map : ('a1 -> 'a2) -> 'a1 list -> 'a2 list
 
@@ -53,7 +71,40 @@ val forallb : ('a1 -> bool) -> 'a1 list -> bool
 
 val filter : ('a1 -> bool) -> 'a1 list -> 'a1 list
 
+val firstn : nat -> 'a1 list -> 'a1 list
+
 val list_max : nat list -> nat
+
+type positive =
+| XI of positive
+| XO of positive
+| XH
+
+type n =
+| N0
+| Npos of positive
+
+module Pos :
+ sig
+  val succ : positive -> positive
+
+  val eqb : positive -> positive -> bool
+
+  val iter_op : ('a1 -> 'a1 -> 'a1) -> positive -> 'a1 -> 'a1
+
+  val to_nat : positive -> nat
+
+  val of_succ_nat : nat -> positive
+ end
+
+module N :
+ sig
+  val eqb : n -> n -> bool
+
+  val to_nat : n -> nat
+
+  val of_nat : nat -> n
+ end
 
 type term =
 | Var of nat
@@ -166,6 +217,101 @@ val max_depth_spec : term -> nat
 
 val supercombb : nat -> term -> bool
 
+type cchar = { code : n; is_alphabetic : bool; is_alphanumeric : bool;
+               is_whitespace : bool; to_digit16 : nat option }
+
+val c_backslash : n
+
+val c_lambda : n
+
+val c_lparen : n
+
+val c_rparen : n
+
+val c_dot : n
+
+val is_char : n -> cchar -> bool
+
+val is_lambda_glyph : cchar -> bool
+
+type name = n list
+
+val name_eqb : name -> name -> bool
+
+type atok =
+| TLam of name
+| TLp
+| TRp
+| TIdx of nat
+| TName of name
+
+type lex_result =
+| LexOk of atok list
+| LexBadStart of nat * n
+| LexBad
+
+val lex_dbr : nat -> cchar list -> lex_result
+
+type lstate =
+| LTop
+| LBinder0
+| LBinder of name
+| LName of name
+
+val lex_cla : lstate -> nat -> cchar list -> lex_result
+
+val index_of : name -> name list -> nat option
+
+val apps : term list -> term option
+
+val rgroup :
+  nat -> name list -> name list -> atok list -> ((term * atok list) * name
+  list) option
+
+val rparse : atok list -> term option
+
+type ref_result =
+| RefOk of term
+| RefBadStart of nat * n
+| RefErr
+
+val ref_parse : bool -> cchar list -> ref_result
+
+type str = n list
+
+val b26_fuel : nat -> nat -> str
+
+val b26 : nat -> str
+
+val s_undef : str
+
+type position =
+| Top
+| Operator
+| Operand
+
+val tdepth : term -> nat
+
+val print_cla : n -> nat -> term -> position -> nat -> str
+
+val ref_print_cla : n -> term -> str
+
+val hexd : nat -> n
+
+val print_dbr : n -> term -> position -> str
+
+val ref_print_dbr : n -> term -> str
+
+val indices_in : nat -> nat -> term -> bool
+
+val nat_index_of : nat -> nat list -> nat option
+
+val canon_at : nat -> nat list -> term -> term * nat list
+
+val canon : term -> term
+
+val classify : n -> cchar
+
 type term_error =
 | NotVar
 | NotAbs
@@ -249,3 +395,97 @@ val child_depth : nat -> term -> nat
 val sc_loop : nat -> (nat * term) list -> bool option
 
 val is_supercombinator : term -> bool option
+
+type parse_error =
+| InvalidCharacter of nat * n
+| InvalidExpression
+| EmptyExpression
+
+type token =
+| Lambda
+| Lparen
+| Rparen
+| Number of nat
+
+type ctoken =
+| CLambda of name
+| CLparen
+| CRparen
+| CName of name
+
+val tokenize_dbr_from : nat -> cchar list -> (parse_error, token list) sum
+
+val tokenize_dbr : cchar list -> (parse_error, token list) sum
+
+val scan_binder :
+  nat -> cchar list -> name -> bool -> (parse_error, (name * cchar
+  list) * nat) sum
+
+val scan_name : nat -> cchar list -> name -> (name * cchar list) * nat
+
+val tokenize_cla_from :
+  nat -> nat -> cchar list -> (parse_error, ctoken list) sum
+
+val tokenize_cla : cchar list -> (parse_error, ctoken list) sum
+
+val rposition : name -> name list -> nat option
+
+val convert_from :
+  nat -> ctoken list -> name list -> nat -> token list -> (token
+  list * ctoken list) * name list
+
+val convert_classic_tokens : ctoken list -> token list
+
+type expression =
+| EAbstraction
+| ESequence of expression list
+| EVariable of nat
+
+val ast_from :
+  nat -> token list -> bool -> expression list -> (parse_error,
+  expression * token list) sum
+
+val get_ast : token list -> (parse_error, expression) sum
+
+val fold_terms : term list -> (parse_error, term) sum
+
+val abs_times : nat -> term -> term
+
+val expr_size : expression -> nat
+
+val exprs_size : expression list -> nat
+
+val fold_exprs_from :
+  nat -> expression list -> nat -> term list -> (parse_error, term) sum
+
+val fold_exprs : expression list -> (parse_error, term) sum
+
+type notation =
+| Classic
+| DeBruijn
+
+val parse : cchar list -> notation -> (parse_error, term) sum
+
+type str0 = n list
+
+val base26_loop : nat -> nat -> n list -> n list
+
+val base26_encode : nat -> str0
+
+val s_undefined : str0
+
+val parenthesize_if : str0 -> bool -> str0
+
+val show_precedence_cla : n -> term -> nat -> nat -> nat -> str0
+
+val display : n -> term -> str0
+
+val hex_digit : nat -> n
+
+val hex_loop : nat -> nat -> str0 -> str0
+
+val upper_hex : nat -> str0
+
+val show_precedence_dbr : n -> term -> nat -> str0
+
+val debug : n -> term -> str0
